@@ -36,7 +36,10 @@ pub fn nonempty_partition(r: &mut Rng, d: &[u8]) -> Vec<Vec<u8>> {
 /// sizes next to powers of two (64 … 2^20), the thresholds optimised code tends to introduce: 2^e - 2 … 2^e + 2
 thread_local! { static DICT: std::cell::RefCell<(Vec<u64>, Vec<u64>)> = std::cell::RefCell::new((vec![], vec![])); }
 /// sizes derived from one literal `b` of the library's current source: the value itself ± 3, its half and its multiples
+thread_local! { static BIGSEQ: std::cell::Cell<u64> = std::cell::Cell::new(0); }
 fn around(r: &mut Rng, b: u64) -> u64 {
+    // large literals are expensive: walk their variants in a fixed order so that the few affordable cases differ
+    if b > 65536 { let k = BIGSEQ.with(|c| { let v = c.get(); c.set(v + 1); v }); return [b + 1, b + 2, b, b - 1, b / 2 + 1, b + 3, b / 2, b - 2][(k % 8) as usize]; }
     match r.below(12) { 0 => b.saturating_sub(2), 1 => b.saturating_sub(1), 2 | 3 => b, 4 => b + 1, 5 => b + 2, 6 => b + 3, 7 => b / (2 + r.below(3)) + r.below(3), 8 => 2 * b + r.below(2), 9 => b * (2 + r.below(4)), 10 => b + 2 * (1 + r.below(3)), _ => b * 3 + r.below(2) }
 }
 /// chooses a size-directed mode one time in `one_in`; one time in four when the current source has literals that the pinned tree
@@ -46,13 +49,27 @@ pub fn size_mode(r: &mut Rng, one_in: u64) -> bool {
     if novel && r.below(4) == 0 { return true; }
     r.below(one_in) == 0
 }
+thread_local! { static BUDGET: std::cell::Cell<u64> = std::cell::Cell::new(64 << 20); }
+/// sizes above 64 KiB draw on a per-stream budget of 64 MiB in total, so that a large literal in the source (10^7, say) yields a handful
+/// of cases of that size and not thousands
+fn spend(v: u64) -> bool { if v <= 65536 { return true; } BUDGET.with(|b| if b.get() >= v { b.set(b.get() - v); true } else { false }) }
 pub fn ladder(r: &mut Rng, max_e: u64) -> usize {
+    let v = ladder_raw(r, max_e) as u64;
+    if spend(v) { v as usize } else { ((1u64 << (6 + r.below(8))) as i64 + r.below(5) as i64 - 2).max(1) as usize }
+}
+fn ladder_raw(r: &mut Rng, max_e: u64) -> usize {
     // literals of the current source first (those not in the pinned tree's baseline with extra weight), powers of two otherwise
     let hard_cap: u64 = if max_e >= 13 { 12_100_000 } else { 20_000 };
     let pick = DICT.with(|d| { let d = d.borrow();
         if !d.1.is_empty() && r.below(2) == 0 { Some(d.1[r.below(d.1.len() as u64) as usize]) }
         else if !d.0.is_empty() && r.below(5) == 0 { Some(d.0[r.below(d.0.len() as u64) as usize]) } else { None } });
-    if let Some(b) = pick { if b >= 8 { let v = around(r, b); if v >= 1 && v <= hard_cap && (v <= (1u64 << max_e) + 2 || r.below(4) == 0) { return v as usize; } } }
+    if let Some(b) = pick { if b >= 8 {
+        let big = b > 65536;
+        // (the gate comes first for large literals, so that their variants are not used up by rejected draws)
+        if !big || b <= (1u64 << max_e) + 2 || r.below(4) == 0 {
+            let v = around(r, b); if v >= 1 && v <= hard_cap && (big || v <= (1u64 << max_e) + 2 || r.below(4) == 0) { return v as usize; }
+        }
+    } }
     let e = 6 + match r.below(8) { 0 => r.below(max_e - 5), _ => r.below((max_e - 5).min(8)) };   // mostly 64 … 8192
     ((1u64 << e) as i64 + r.below(5) as i64 - 2).max(1) as usize
 }
@@ -70,6 +87,7 @@ pub fn generate(stream: &str, n: usize, seed: u64, out: &mut dyn Write) {
     let sid = stream.bytes().fold(7u64, |a, b| a.wrapping_mul(131).wrapping_add(b as u64));
     let mut r = Rng::seeded(seed, sid);
     DICT.with(|d| *d.borrow_mut() = crate::consts::dictionary(stream));
+    BUDGET.with(|b| b.set(match stream { "annexb" => 256 << 20, "acc" => 128 << 20, "stream" => 24 << 20, _ => 64 << 20 }));
     match stream {
         "annexb" => for _ in 0..n { gen_annexb(&mut r, out); },
         "annexb-exh" => gen_annexb_exhaustive(n, out),
@@ -144,7 +162,30 @@ fn directed_annexb(r: &mut Rng) -> (Vec<u8>, Vec<Vec<u8>>) {
 }
 
 /// units whose zero-free bodies, zero stuffing and push lengths sit next to powers of two; pushes end on held-back zeros
+thread_local! { static STYLE: std::cell::Cell<u64> = std::cell::Cell::new(0); }
 fn gen_annexb_ladder(r: &mut Rng, out: &mut dyn Write) {
+    let style = STYLE.with(|c| { let v = c.get(); c.set(v + 1); v % 8 });   // round robin: every shape gets its share of the expensive sizes
+    if style == 0 {
+        // two units delivered in pieces with a reset between them, whose sizes *add up* to a ladder value (state that should not
+        // survive the reset), then a small unit
+        let b = ladder(r, 17); let s1 = (b as u64 * (40 + r.below(31)) / 100).max(4) as usize; let s2 = b - s1.min(b) + r.below(b as u64 / 5 + 2) as usize + 2;
+        let mut line = String::from("annexb");
+        for (k, sz) in [s1, s2].iter().enumerate() {
+            let mut u = vec![0u8, 0, 1]; u.extend(filler(r, *sz, true)); if k == 1 { u.extend_from_slice(&[0, 0, 1, 0x68, 0xce]); }
+            let np = 2 + r.below(3) as usize; let step = u.len() / np + 1; let mut i = 0; while i < u.len() { let e = (i + step).min(u.len()); line.push_str(&format!(" p:{}", hex_rle(&u[i..e]))); i = e; }
+            line.push_str(" r");
+        }
+        writeln!(out, "{}", line).unwrap(); return;
+    }
+    if style == 1 {
+        // a unit a little longer than a ladder value, with a push boundary exactly where that many of its bytes have been delivered
+        let b = ladder(r, 17); let n = b + 1 + r.below(40) as usize;
+        let mut u = vec![0u8, 0, 1]; u.extend(filler(r, n, true)); u.extend_from_slice(&[0, 0, 1, 0x68, 0xce]);
+        let mut cuts = vec![3 + b]; if r.flag() { cuts.push(3 + r.below(b as u64) as usize); } if r.flag() { cuts.push(3 + b + 1); } cuts.sort(); cuts.dedup();
+        let mut line = String::from("annexb"); let mut i = 0; for c in cuts { if c > i && c < u.len() { line.push_str(&format!(" p:{}", hex_rle(&u[i..c]))); i = c; } }
+        line.push_str(&format!(" p:{} r", hex_rle(&u[i..])));
+        writeln!(out, "{}", line).unwrap(); return;
+    }
     if r.below(4) == 0 {
         // a run of bytes that belong to no unit (before the first start code, or after a reset), of ladder length, then a broken start
         // code (zeros followed by a byte that is neither 00 nor 01), then 01 and data, then a real start code and a unit
@@ -350,7 +391,7 @@ fn gen_refnal(r: &mut Rng, out: &mut dyn Write) {
 /// capacity-dependent handling of the internal buffer must not leak bytes or decisions into the following NALs
 fn gen_acc_ladder(r: &mut Rng, out: &mut dyn Write) {
     let mut steps = vec![];
-    let total = if r.below(12) == 0 { (1usize << 20) + r.below(300_000) as usize } else { ladder(r, 17) };
+    let total = if r.below(12) == 0 && spend(1 << 21) { (1usize << 20) + r.below(300_000) as usize } else { ladder(r, 17) };
     let pieces = 2 + r.below(3) as usize; let mut left = total;
     for k in 0..pieces { let n = if k + 1 == pieces { left } else { (left / 2).max(1) }; left -= n.min(left);
         let last = k + 1 == pieces; let ans = if last && r.below(3) == 0 { 'I' } else { 'B' };
@@ -910,6 +951,18 @@ fn emit_prefixes(r: &mut Rng, nal: &[u8], out: &mut dyn Write, count: &mut usize
 /// C12: NAL sequences serialised as Annex B with 3/4-byte start codes and zero padding, pushed in pieces
 fn gen_stream(r: &mut Rng, n: usize, out: &mut dyn Write) {
     for _ in 0..n {
+        if size_mode(r, 60) {
+            // SPS, a slice NAL whose data has a ladder size pushed in pieces of 64 KiB (or smaller), then SPS and PPS cut across pushes:
+            // whatever the accumulator keeps from the large NAL must not affect the following ones
+            let (sd, sinfo) = gen_sps(r); let spss = vec![sinfo]; let (pd, pinfo) = gen_pps(r, &spss); let ppss = vec![pinfo];
+            let (hdr, mut d) = gen_slice(r, &spss, &ppss); while d.last() == Some(&0) { d.pop(); }
+            let big = ladder(r, 13); d.extend(filler(r, big, true)); d.push(0x80);
+            let mut sdat: Vec<u8> = vec![]; for nal in [to_nal(0x67, &sd), to_nal(0x68, &pd), to_nal(hdr, &d), to_nal(0x67, &sd), to_nal(0x68, &pd)] { sdat.extend_from_slice(&[0, 0, 1]); sdat.extend(nal); }
+            // (at most ~48 pushes per case: the model's accumulator copies its buffer on every push)
+            let piece = (if r.flag() { 65536 } else { 1 + ladder(r, 12) }).max(sdat.len() / 48 + 1);
+            let mut line = String::from("stream B"); let mut i = 0; while i < sdat.len() { let e = (i + piece).min(sdat.len()); line.push_str(&format!(" p:{}", hex_rle(&sdat[i..e]))); i = e; }
+            line.push_str(" r"); writeln!(out, "{}", line).unwrap(); continue;
+        }
         let mut nals: Vec<Vec<u8>> = vec![];
         let (sd, sinfo) = gen_sps(r); nals.push(to_nal(0x67, &sd));
         let spss = vec![sinfo];
